@@ -248,7 +248,7 @@ def rule_vi2(A: Analysis, rep, Q=None):
         ok = len(exs) == 1 and executed_query(A, exs[0]) == qname
         cols = colnames(Q[qname]) if qname in Q and Q[qname].get("type") == "select" else []
         if fn != "get_all_versions" and ok:
-            ok = len(exs[0].args) == 2 and norm(exs[0].args[1]) == "(str(%s),)" % f.params[1]
+            ok = len(exs[0].args) == 2 and A.xtext(exs[0].args[1], f, stop=f.params) == "(str(%s),)" % f.params[1]
         cons = A.calls_in_func(f, "conductor.execution.version_index.Version")
         det = "query %s" % (executed_query(A, exs[0]) if exs else None)
         hf, hoff, hrow = f, 0, ()
@@ -480,15 +480,18 @@ def rule_vi6(A: Analysis, rep):
     cons = A.calls_in_func(gen, "conductor.execution.version_index.Version")
     ok = False
     det = "no Version(...) construction"
-    if len(cons) == 1:
-        b = A.bind_args(cons[0], A.fn("execution.version_index.Version.__init__"))
-        ch = b.get("commit_hash")
-        dirty = b.get("has_uncommitted_changes")
-        at = _stmt_of(cons[0])
+    if len(cons) >= 1:
+        # one construction with conditional values, or one construction per case: the union of what reaches them
         keep = lambda a: a == "none(%s)" % commit
         none_t, none_f = frozenset({("none(%s)" % commit, True)}), frozenset({("none(%s)" % commit, False)})
-        rv_h = A.rvalues(gen, ch, at, keep=keep) if ch is not None else []
-        rv_d = A.rvalues(gen, dirty, at, keep=keep) if dirty is not None else []
+        rv_h, rv_d = [], []
+        for con in cons:
+            b = A.bind_args(con, A.fn("execution.version_index.Version.__init__"))
+            ch = b.get("commit_hash")
+            dirty = b.get("has_uncommitted_changes")
+            at = _stmt_of(con)
+            rv_h += A.rvalues(gen, ch, at, keep=keep) if ch is not None else [(frozenset(), "?")]
+            rv_d += A.rvalues(gen, dirty, at, keep=keep) if dirty is not None else [(frozenset(), "?")]
         ok_hash = set(rv_h) == {(none_f, "%s.hash" % commit), (none_t, "None")}
         ok_dirty = set(rv_d) == {(none_f, "%s.has_changes" % commit), (none_t, "False")}
         ok = ok_dirty and ok_hash
